@@ -1,19 +1,35 @@
 /- GENERATED: instance obligations for one logic, discharged by kernel evaluation.
-   `X ⊆ known`: every failing row is a committed known finding (Ptx/Gen/Known.lean). -/
+   `S` = the logic with its DOCUMENTED tables (Ptx/Sem/Spec.lean); rules, closure, trunk and frames
+   are what the translator read off the code.  `X ⊆ known`: every failing row is a committed
+   known finding (Ptx/Gen/Known.lean, generated from known_findings.json). -/
 import Ptx.Gen.L_KB3E
 import Ptx.Gen.Known
 import Ptx.Sem.Subset
+import Ptx.Props.C01
+import Ptx.Gen.L_B3E
 namespace Ptx.Gen.Obl.KB3E
 open Ptx
 
-theorem tables_total : Gen.KB3E.tablesTotalB = true := by decide +kernel
-theorem rules_exact : subsetB Gen.KB3E.badRules (Known.badRules "KB3E") = true := by decide +kernel
-theorem rules_sound : subsetB Gen.KB3E.unsoundRules (Known.unsoundRules "KB3E") = true := by decide +kernel
-theorem rules_total : subsetB Gen.KB3E.missingRules (Known.missingRules "KB3E") = true := by decide +kernel
-theorem rules_local : Gen.KB3E.nonLocalRules = [] := by decide +kernel
-theorem closure_total : Gen.KB3E.closureTotalB = true := by decide +kernel
-theorem closure_exact : subsetB Gen.KB3E.badClosure (Known.badClosure "KB3E") = true := by decide +kernel
-theorem read_total : Gen.KB3E.readTotalB = true := by decide +kernel
-theorem read_exact : subsetB Gen.KB3E.badRead (Known.badRead "KB3E") = true := by decide +kernel
+/-- a modal / first-order extension has exactly the truth-functional tables of its base (B3E) -/
+theorem base_tables : Gen.KB3E.tables.sameTF Gen.B3E.tables = true := by decide +kernel
+theorem spec_defined : Gen.KB3E.specDefinedB = true := by decide +kernel
+theorem tables_spec : subsetB Gen.KB3E.tableDiff (Known.tableDiff "KB3E") = true := by decide +kernel
+theorem defined_ops : Gen.KB3E.tables.definedOpsBad = [] := by decide +kernel
+theorem tables_total : Gen.KB3E.sem.tablesTotalB = true := by decide +kernel
+theorem rules_exact : subsetB Gen.KB3E.sem.badRules (Known.badRules "KB3E") = true := by decide +kernel
+theorem rules_sound : subsetB Gen.KB3E.sem.unsoundRules (Known.unsoundRules "KB3E") = true := by decide +kernel
+theorem rules_total : subsetB Gen.KB3E.sem.missingRules (Known.missingRules "KB3E") = true := by decide +kernel
+theorem rules_local : Gen.KB3E.sem.nonLocalRules = [] := by decide +kernel
+theorem closure_total : Gen.KB3E.sem.closureTotalB = true := by decide +kernel
+theorem closure_exact : subsetB Gen.KB3E.sem.badClosure (Known.badClosure "KB3E") = true := by decide +kernel
+theorem read_total : Gen.KB3E.sem.readTotalB = true := by decide +kernel
+theorem read_exact : subsetB Gen.KB3E.sem.badRead (Known.badRead "KB3E") = true := by decide +kernel
+theorem sound_core : Gen.KB3E.sem.soundCoreB = true := by decide +kernel
+
+/-- C01 for this logic: a closed tableau reached by any legal derivation has no countermodel. -/
+theorem c01_valid_sound (arg : Argument) (t : Tableau)
+    (hd : Deriv Gen.KB3E.sem.soundPart.noQuantPart (trunk Gen.KB3E.sem arg) t) (hclosed : t.allClosed = true)
+    (M : Struct) (hM : M.Interp Gen.KB3E.sem) (e : Env M.D) (w0 : M.W) : ¬ Countermodel Gen.KB3E.sem M e w0 arg :=
+  Props.C01.C01_valid_sound_partial Gen.KB3E.sem sound_core arg t hd hclosed M hM e w0
 
 end Ptx.Gen.Obl.KB3E
